@@ -182,8 +182,11 @@ HdrOkCls == {"obj", "objws"}
 NonStringAlg == {"#int", "#null", "#bool", "#arr", "#obj", "#real"}
 
 ParseForge(td) ==
-  LET rej == [status |-> "reject", alg |-> "none", spelling |-> NONE, hdr |-> EmptyMap,
-              clm |-> EmptyMap, sigEmpty |-> TRUE]
+  LET \* a malformed token still has a header alg spelling (when its header is an object) and
+      \* an empty or non-empty third segment: C03 speaks about both whatever else is wrong
+      rej == [status |-> "reject", alg |-> "none",
+              spelling |-> IF td.shape = "3seg" /\ td.hdr.cls \in {"obj", "objws"} THEN td.hdr.alg ELSE "?",
+              hdr |-> EmptyMap, clm |-> EmptyMap, sigEmpty |-> (td.sig.cls = "empty")]
       any == [rej EXCEPT !.status = "any"]
   IN
   IF td.shape \in {"null", "empty", "0dot", "1dot", "2seg", "lead"} THEN rej
@@ -347,9 +350,13 @@ P_C02(pt, cb, ret) ==
   /\ (pt.status = "ok" /\ cb.ret = 0 /\ ~Admit("checker", cb.cfg.alg, cb.cfg.key)) => ret # 0
 \* C03: unsigned only without key and algorithm
 P_C03(pt, cb, ret) ==
-  (ret = 0 /\ pt.status = "ok") =>
-     /\ (Keyed(cb.cfg) => ~pt.sigEmpty /\ pt.alg # "none")
-     /\ (~Keyed(cb.cfg) => pt.sigEmpty /\ pt.spelling = "none")
+  /\ (ret = 0 /\ pt.status = "ok") =>
+        /\ (Keyed(cb.cfg) => ~pt.sigEmpty /\ pt.alg # "none")
+        /\ (~Keyed(cb.cfg) => pt.sigEmpty /\ pt.spelling = "none")
+  \* whatever else is wrong with the token: no key => only alg exactly "none"; key => never an empty signature
+  /\ (ret = 0 /\ pt.status = "reject") =>
+        /\ (~Keyed(cb.cfg) => pt.spelling = "none")
+        /\ (Keyed(cb.cfg) => ~pt.sigEmpty)
 \* C04: claims; iff on otherwise acceptable tokens
 P_C04(ck, pt, cb, sok, t, o, ret) ==
   /\ (ret = 0 /\ pt.status = "ok") => ClaimsOK(ck, pt.clm, t)
